@@ -222,7 +222,7 @@ def load_known():
             line = line.strip()
             if not line.startswith("known:"):
                 continue
-            head, matcher, what = [x.strip() for x in line.split("::", 2)]
+            head, matcher, what = [x.strip() for x in line.split(" :: ", 2)]
             pid = re.search(r"property=(C\d+)", head).group(1)
             out.append({"status": "known", "property": pid, "match": json.loads(matcher), "what": what})
     return out
